@@ -14,6 +14,8 @@ the other tenants' requests removed and compares what each tenant observes.
 * `C10_write_frame_insert/_delete/_update/_batchDeleteIds/_batchDeleteFilter/_bulkInsert/_bulkLoad`: a write / delete /
   update / batch delete (ids or any filter) / BulkInsert stream of tenant B leaves every read of a tenant A with another
   index unchanged (found / not-found included);
+* `C10_noninterference_with_filter_deletes` / `_from_start`: the same with `BatchDelete` by ANY filter in the histories, on
+  reachable states (invariant `Inv` of C14: unique ids, documents stored in their tenant's id range);
 * `C10_noninterference` / `_from_start`: over whole histories of the id-addressed RPCs, what a tenant observes equals what
   it observes with every other tenant's requests removed (unwinding: `Lemmas/TenantNI.lean`);
 * `C10_filter_blind_to_reserved`, `C10_reserved_filter_refused_search/_batchDelete`: a client filter naming a
@@ -28,6 +30,7 @@ the other tenants' requests removed and compares what each tenant observes.
 -/
 import KyroModel.Lemmas.TenantInv
 import KyroModel.Lemmas.TenantNI
+import KyroModel.Lemmas.TenantFilterNI
 
 namespace KyroModel.C10
 open KyroModel KyroModel.Srv
@@ -409,8 +412,8 @@ def purge (a : Tn) (h : Hist) : Hist := h.filter fun p => p.1.idx == a.idx
     history shared with any other tenants is exactly what it observes when their requests are removed
     — found / not-found answers, vectors, metadata, error codes, quota refusals and deleted counts
     included.  By unwinding: `handle_view` (output consistency + step consistency on the A-view),
-    `handle_respects` (local respect).  Search, BulkSearch, BatchDelete by filter,
-    FlushHotTier and /usage are not in `Req`: see `C10_search_count_leak` and the replay oracle. -/
+    `handle_respects` (local respect).  BatchDelete by filter: `C10_noninterference_with_filter_deletes`.
+    Search, BulkSearch, FlushHotTier and /usage are not in `Req`: see `C10_search_count_leak` and the replay oracle. -/
 theorem C10_noninterference (a : Tn) (h : Hist) (hkey : ∀ p ∈ h, p.1.idx = a.idx → p.1 = a) :
     ∀ (s1 s2 : S), ViewEq a s1 s2 → observed_by a s1 h = observed_by a s2 (purge a h) := by
   induction h with
@@ -437,6 +440,57 @@ theorem C10_noninterference_from_start (a : Tn) (h : Hist) (dim : Nat)
     (hkey : ∀ p ∈ h, p.1.idx = a.idx → p.1 = a) :
     observed_by a { dim := dim } h = observed_by a { dim := dim } (purge a h) :=
   C10_noninterference a h hkey _ _ (ViewEq.refl a _)
+
+/-! ### non-interference with `BatchDelete` by filter (reachable states) -/
+
+abbrev HistF := List (Tn × ReqF)
+
+def observed_byF (parse : String → Option Nat) (a : Tn) (s : S) : HistF → List Resp
+  | [] => []
+  | (t, r) :: rest =>
+    if t.idx = a.idx then (handleF parse s t r).2 :: observed_byF parse a (handleF parse s t r).1 rest
+    else observed_byF parse a (handleF parse s t r).1 rest
+
+def purgeF (a : Tn) (h : HistF) : HistF := h.filter fun p => p.1.idx == a.idx
+
+/-- **Non-interference including `BatchDelete` by ANY filter** (AND / OR / NOT / ranges / IN, any
+    nesting; filters naming a server-owned key are refused): a filter delete walks the whole shared
+    document list, so this holds on states that satisfy the invariant `Inv` (unique ids, every
+    document in the id range of the tenant whose index it carries) — which every reachable state
+    does (`C14_sequential`) and which both runs preserve (`handleF_inv`).  What tenant `a` observes
+    — deleted counts of its filter deletes included — is what it observes with every other configured
+    tenant's requests removed, and no filter of another tenant removes or changes a document of `a`. -/
+theorem C10_noninterference_with_filter_deletes (parse : String → Option Nat) {ts : List Tn} (hts : Tenants ts)
+    {a : Tn} (ha : a ∈ ts) (h : HistF) (hmem : ∀ p ∈ h, p.1 ∈ ts) :
+    ∀ (s1 s2 : S), Inv ts s1 → Inv ts s2 → ViewEq a s1 s2 →
+      observed_byF parse a s1 h = observed_byF parse a s2 (purgeF a h) := by
+  induction h with
+  | nil => intro _ _ _ _ _; rfl
+  | cons p rest ih =>
+    obtain ⟨t, r⟩ := p
+    intro s1 s2 h1 h2 hv
+    have htm : t ∈ ts := hmem (t, r) (List.mem_cons_self ..)
+    have hrest : ∀ q ∈ rest, q.1 ∈ ts := fun q hq => hmem q (List.mem_cons_of_mem _ hq)
+    by_cases ht : t.idx = a.idx
+    · have hta : t = a := hts t htm a ha (Or.inl ht)
+      subst hta
+      obtain ⟨e1, e2⟩ := handleF_view parse hts htm h1 h2 hv r
+      simp only [observed_byF, purgeF, List.filter_cons, beq_self_eq_true, if_true]
+      rw [e1]
+      congr 1
+      exact ih hrest _ _ (handleF_inv parse hts h1 htm r) (handleF_inv parse hts h2 htm r) e2
+    · have hne : a.idx ≠ t.idx := fun e => ht e.symm
+      have hb : (t.idx == a.idx) = false := by simpa using ht
+      simp only [observed_byF, ht, if_false, purgeF, List.filter_cons, hb, Bool.false_eq_true]
+      exact ih hrest _ _ (handleF_inv parse hts h1 htm r) h2
+        ((handleF_respects parse hts htm hne h1 r).symm.trans hv)
+
+/-- from the empty server, for configured tenants -/
+theorem C10_noninterference_with_filter_deletes_from_start (parse : String → Option Nat) {ts : List Tn}
+    (hts : Tenants ts) {a : Tn} (ha : a ∈ ts) (h : HistF) (hmem : ∀ p ∈ h, p.1 ∈ ts) (dim : Nat) :
+    observed_byF parse a { dim := dim } h = observed_byF parse a { dim := dim } (purgeF a h) :=
+  C10_noninterference_with_filter_deletes parse hts ha h hmem _ _ (C14.C14_init dim) (C14.C14_init dim)
+    (ViewEq.refl a _)
 
 /-! ### search -/
 
@@ -527,6 +581,16 @@ theorem C10_search_count_leak :
     its own document -/
 example : (Srv.insert { dim := 1 } tB 1 [5] [] "").2.toOption = some () ∧
     (readDoc (Srv.insert { dim := 1, docs := [(1, docA)] } tB 1 [5] [] "").1 tA 1 "").map (·.1) = some [0] := by
+  decide
+
+def sAB : S := { dim := 1, docs := [(1, docA), (limit32 + 1, docB)], counts := [(0, 1), (1, 1)] }
+
+/-- non-vacuity: tenant B's NOT-filter (which matches every document that lacks the key) deletes
+    B's own document and leaves A's; A then still reads its document -/
+example :
+    (Srv.batchDeleteFilter (fun _ => none) sAB tB (.not (some (.exact "colour" "red"))) "").2.toOption = some 1 ∧
+    ((readDoc (handleF (fun _ => none) sAB tB (.bdFilter (.not (some (.exact "colour" "red"))) "")).1 tA 1 "").map (·.1))
+      = some [0] := by
   decide
 
 end KyroModel.C10
